@@ -3,28 +3,22 @@ import MythVerif.Proofs.WsQueueTsoTac
 namespace MythVerif.WsqTso
 open MythVerif.Wsq
 
-set_option maxHeartbeats 4000000 in
 theorem f_O_top_pq (s : St) (v0) (rest : List Sto) : Inv s → s.opc = .pq →
     s.bufO = .top v0 :: rest → Inv (applySto { s with bufO := rest } (.top v0)) := by
   intro h hpc hb
   simp only [applySto]
-  cases h; simp only [hpc, ownerLocked, carry, resetting, ownerFlight] at *
-  tso_finish3
+  tso_fastO h hpc [carryC]
 
-set_option maxHeartbeats 4000000 in
 theorem f_O_top_po1 (s : St) (v0) (rest : List Sto) : Inv s → s.opc = .po1 →
     s.bufO = .top v0 :: rest → Inv (applySto { s with bufO := rest } (.top v0)) := by
   intro h hpc hb
   simp only [applySto]
-  cases h; simp only [hpc, ownerLocked, carry, resetting, ownerFlight] at *
-  tso_finish3
+  tso_fastO h hpc [carryC]
 
-set_option maxHeartbeats 4000000 in
 theorem f_O_top_ptl (s : St) (v0) (rest : List Sto) (e) : Inv s → s.opc = .ptl e →
     s.bufO = .top v0 :: rest → Inv (applySto { s with bufO := rest } (.top v0)) := by
   intro h hpc hb
   simp only [applySto]
-  cases h; simp only [hpc, ownerLocked, carry, resetting, ownerFlight] at *
-  tso_finish3
+  tso_fastO h hpc [carryC]
 
 end MythVerif.WsqTso
